@@ -98,7 +98,8 @@ def run(ctx):
     g_dpor.V2(ctx, subset=CH)
     g_dpor.T3(ctx, mods=["rt::mpsc"])
     g_dpor.T1(ctx, mods=["rt::mpsc"])
-    g_state.run_all(ctx, ["S3", "S5", "S7", "D2"])
+    g_state.run_all(ctx, ["S3", "S5", "S7", "S9", "D2"])
+    g_dpor.V3(ctx, subset=("rt::mpsc",))
     g_sync.run_all(ctx, ["Y1:channel"])
     Q1(ctx)
     Q2(ctx)
